@@ -2,6 +2,7 @@
 //! from /repo's working tree, feature `verif-hooks`) and records one NDJSON
 //! event per step for trace validation by TLC.
 mod abs;
+mod c07;
 mod c10;
 mod c13;
 mod c16;
@@ -64,6 +65,7 @@ fn main() {
     }
     let fam = args[1].as_str();
     match fam {
+        "c07" => c07::run(&args[2], &args[3]),
         "c10" => c10::run(&args[2], &args[3]),
         "c13" => c13::run(&args[2], &args[3]),
         "c16" => c16::run(&args[2], &args[3]),
